@@ -164,6 +164,11 @@ func Save(c *chart.Chart, outDir string) (string, error) {
 }
 
 func writeTarContents(out *tar.Writer, c *chart.Chart, prefix string) error {
+	// Dependencies are validated like the chart itself (this also sanitizes
+	// their names, which are used as directory names below).
+	if err := c.Validate(); err != nil {
+		return errors.Wrap(err, "chart validation")
+	}
 	err := validateName(c.Name())
 	if err != nil {
 		return err
